@@ -1006,6 +1006,14 @@ func (d *Driver) end(j *job) {
 		writeFile(path.Join(md, "_outs"), []byte(`{"y": `))
 		writeFile(path.Join(md, "_complete"), []byte("done"))
 		d.journal(j, "complete")
+	case "garbage-outs":
+		// the right outputs followed by something that is not JSON: the file as a whole
+		// does not parse
+		outs, _ := Untag(j.inv.Outs)
+		b, _ := json.Marshal(Resolve(outs, d.resolve))
+		writeFile(path.Join(md, "_outs"), append(b, []byte(" garbage ][")...))
+		writeFile(path.Join(md, "_complete"), []byte("done"))
+		d.journal(j, "complete")
 	case "missing-key":
 		writeFile(path.Join(md, "_outs"), []byte(`{}`))
 		writeFile(path.Join(md, "_complete"), []byte("done"))
